@@ -396,7 +396,7 @@ _cache = {}
 
 
 def effects_of(world):
-    key = id(world)
+    key = world.uid
     e = _cache.get(key)
     if e is None:
         e = Effects(world)
